@@ -32,7 +32,8 @@ import (
 )
 
 const rule = "case = rapid-drawn program of single writes, batches of 1-50 entries, transactions, explicit flushes (rotation), small memtables " +
-	"(automatic rotation), clean reopen, and (TestPropCrash) crash/recover rounds in a child process; in half of the sequential cases a " +
+	"(automatic rotation), clean reopen, and (TestPropCrash) crash/recover rounds in a child process; one sequential case in six runs a window " +
+	"of its steps under a process file-size limit (a log write fails part-way; failed writes are not acknowledged, the history goes on); in half of the sequential cases a " +
 	"replication.Primary observes the engine's log. oracle (a): after every acknowledged write GetStats()[storage_last_sequence] is strictly " +
 	"greater than after the previous acknowledged write and never decreases across flush/reopen/recovery, WAL.GetNextSequence() is greater " +
 	"than it, Primary.GetLastSequence() never decreases (also compared across a restart of the primary); (b) after every close the log " +
@@ -68,6 +69,17 @@ type Case struct {
 	Program     drive.Program      `json:"program"`
 	WithPrimary bool               `json:"with_primary"`
 	Rounds      []drive.CrashRound `json:"rounds,omitempty"` // crash variant
+	// Fault (seq variant): while steps [From,To) run, the process's file-size
+	// limit is Limit bytes, so a log write fails part-way like on a full disk
+	// (synchronous logging, single-record writes only)
+	Fault *FsizeFault `json:"fault,omitempty"`
+}
+
+// FsizeFault is a window of steps executed under RLIMIT_FSIZE.
+type FsizeFault struct {
+	Limit int64 `json:"limit"`
+	From  int   `json:"from"`
+	To    int   `json:"to"`
 }
 
 // Doc is the replay document.
@@ -284,7 +296,19 @@ func runSeq(c *Case) *failure {
 	var writes [][]ent
 	var prevAck, prevAny, primLast uint64
 	acked := 0
+	failedWrites := 0
+	defer drive.LiftFsizeLimit()
 	for i, s := range p.Steps {
+		if c.Fault != nil {
+			if i == c.Fault.From {
+				if err := drive.SetFsizeLimit(uint64(c.Fault.Limit)); err != nil {
+					panic(err)
+				}
+			}
+			if i == c.Fault.To {
+				drive.LiftFsizeLimit()
+			}
+		}
 		if s.Op == "reopen" {
 			detach()
 			drive.Quiesce(r.Eng)
@@ -309,6 +333,16 @@ func runSeq(c *Case) *failure {
 				return &failure{"step:" + mm.Signature(), mm.Error()}
 			}
 			if err != nil {
+				if c.Fault != nil {
+					// a write that failed under (or after) the injected fault: not
+					// acknowledged, nothing is expected of it; the history goes on
+					failedWrites++
+					ev.R().Count("writes_failed_under_fsize_fault", 1)
+					if cur := lastSeq(r.Eng); cur < prevAny {
+						return &failure{"stats-decreased@failed-" + s.Op, fmt.Sprintf("step %d (%s failed): storage_last_sequence went from %d to %d", i, s.Op, prevAny, cur)}
+					}
+					continue
+				}
 				ev.R().Count("cases_stopped_at_write_error", 1)
 				return nil
 			}
@@ -522,8 +556,28 @@ func opts() gen.ProgOpts {
 func TestProp(t *testing.T) {
 	o := opts()
 	rapid.Check(t, func(t *rapid.T) {
-		c := Case{Program: gen.Program(t, o), WithPrimary: rapid.Bool().Draw(t, "primary")}
+		var c Case
+		if rapid.IntRange(0, 5).Draw(t, "fsizefault") == 0 {
+			// single-record writes only (a failed multi-record batch may leave complete
+			// records behind: open finding D24, C03's business), synchronous logging
+			// (the failure is reported by the write that causes it)
+			fo := gen.ProgOpts{MinSteps: 8, MaxSteps: 50, Weights: map[string]int{"put": 10, "del": 3, "flush": 3, "reopen": 2}}
+			fo.Val.MaxSmall = rapid.SampledFrom([]int{64, 300, 2000}).Draw(t, "fmaxsmall")
+			p := gen.Program(t, fo)
+			p.Cfg.SyncMode = 2
+			p.Cfg.MemTableSize = rapid.SampledFrom([]int64{4096, 65536, 32 << 20}).Draw(t, "fmemtable")
+			from := rapid.IntRange(0, len(p.Steps)-1).Draw(t, "ffrom")
+			c = Case{Program: p, Fault: &FsizeFault{
+				Limit: rapid.Int64Range(2048, 20000).Draw(t, "flimit"),
+				From:  from,
+				To:    rapid.IntRange(from+1, len(p.Steps)).Draw(t, "fto")}}
+		} else {
+			c = Case{Program: gen.Program(t, o), WithPrimary: rapid.Bool().Draw(t, "primary")}
+		}
 		nt, classes := classify(&c.Program)
+		if c.Fault != nil {
+			classes = append(classes, "fsize_fault_window")
+		}
 		if c.WithPrimary {
 			classes = append(classes, "with_primary")
 		}
